@@ -37,6 +37,8 @@ OtherOps == {
 RECURSIVE SetToSeq(_)
 SetToSeq(S) == IF S = {} THEN <<>> ELSE LET x == CHOOSE y \in S : TRUE IN <<x>> \o SetToSeq(S \ {x})
 MC_UserParams == SetToSeq(TripleOps \cup ScalarOps \cup OtherOps \cup (IF Deep THEN DeepOps ELSE {}))
+gG4 == <<71,52>>
+MC_AliasGroups == {gG4}
 MC_LockNames == IF Deep THEN {gG1, gG2, gNope} ELSE {gG1, gNope}
 MC_PNames == {}  MC_ANames == {}  MC_PRates == {}  MC_ARates == {}
 MC_FrameKinds == {}  MC_ColKinds == {}  MC_Tags == {1}  MC_CallerIds == {}
